@@ -288,7 +288,7 @@ def oracle_history(ctx, cfg, ops, tag, stats, info=None):
     return rel, found[0]
 
 
-ALG_RTOL = 1e-7
+ALG_RTOL = 1e-11      # observed between algebraically equivalent alternatives: <= 2e-15
 
 
 def gen_ops(rng, nreq, keys, inputs=()):
